@@ -32,6 +32,7 @@ from ipv8.dht.payload import (
     StoreRequestPayload,
 )
 from ipv8.dht.storage import Storage
+from ipv8.messaging.interfaces.udp.endpoint import UDPv4Address
 from ipv8.messaging.payload_headers import BinMemberAuthenticationPayload
 
 from .. import core, fixtures, seams, simnet
@@ -246,6 +247,26 @@ RANDOM_TOKEN = bytes(range(0x40, 0x54))
 ROTATE_S = 301.0      # one token rotation (interval 300 s) plus one second: no request lands on a boundary
 LONG_S = 3400.0       # with one rotation before it: values stored at t=0 are past 3600 s, values stored at 301 are not
 IDENTITIES = ("A", "M", "AM")   # AM = datagrams signed with A's key arriving from M's address
+# A's key from an address that is *almost* A's: same IP other port / an IP that differs only in the bits the DHT's
+# node id throws away (node id = crc32(ip & 03.0f.3f.ff)[:3] + mid[:17], the port is not part of it).  They never fetch
+# a token of their own; they present A's genuine one and must be refused ("that same requester (address and key)").
+NEAR_A = ("Ap", "Am")
+FORGED_SIGNATURE = b"\x5c" * 64
+
+
+def near_address(addr, kind: str) -> UDPv4Address:  # noqa: ANN001
+    if kind == "Ap":
+        return UDPv4Address(addr[0], addr[1] + 7)
+    first, rest = addr[0].split(".", 1)
+    twin = UDPv4Address(f"{int(first) ^ 0x04}.{rest}", addr[1])          # bit 2 of the first byte is masked away
+    assert [int(b) & m for b, m in zip(twin[0].split("."), (3, 15, 63, 255))] == \
+           [int(b) & m for b, m in zip(addr[0].split("."), (3, 15, 63, 255))]
+    return twin
+
+
+def forged_signed(ov, data: bytes, version: int, claim: bytes) -> bytes:  # noqa: ANN001
+    """A value that names ``claim`` as its signer and carries 64 bytes that are not a signature."""
+    return ov._ez_pack(b"", 1, [SignedStrPayload(data, version, claim)], sig=False) + FORGED_SIGNATURE
 
 
 class CWorld:
@@ -292,6 +313,8 @@ class CWorld:
             return self.ov["A"], self.nodes["A"].address, self.pk["A"]
         if x == "M":
             return self.ov["M"], self.nodes["M"].address, self.pk["M"]
+        if x in NEAR_A:
+            return self.ov["A"], near_address(self.nodes["A"].address, x), self.pk["A"]
         return self.ov["A"], self.nodes["M"].address, self.pk["A"]
 
     # -- observation of S ------------------------------------------------------------------------------------------
@@ -436,6 +459,10 @@ class CWorld:
             return [good[:-1] + bytes([good[-1] ^ 1])]
         if variant == "claim":
             return [signed(m, b"A-v3", 3, claim=self.pk["A"])]       # signed by M, names A's public key
+        if variant in ("forge1", "forge2"):
+            # names A's key and the SAME version as the genuine a1 / a2, other data, no valid signature
+            v = int(variant[-1])
+            return [forged_signed(m, b"FORGED-v%d" % v, v, self.pk["A"])]
         raise ValueError(variant)
 
     def store(self, x: str, token_choice: str, variant: str, k: int) -> str:
@@ -454,7 +481,7 @@ class CWorld:
         after, problems = self.snapshot()
         self.found += problems
         acked = bool(self.responses(n0, src, 4))
-        ev = f"store-request from {x} ({'A' if x != 'M' else 'M'}'s key, from {src[0]}) with token '{token_choice}' " \
+        ev = f"store-request from {x} ({'A' if x != 'M' else 'M'}'s key, from {src[0]}:{src[1]}) with token '{token_choice}' " \
              f"({why}), values {variant} under key{k}"
 
         oversize = any(len(v) > ref.MAX_ENTRY_SIZE for v in values)
@@ -638,9 +665,18 @@ def community_alphabet(name: str) -> list:
     # value alphabet, honest requester with its own token
     value_stores = [("st", "A", "own", v, 0) for v in ("big", "max", "nine", "eight", "a1", "a2", "a0", "m1",
                                                        "broken", "claim")]
-    other = [("st", "A", "own", "p:A", 1), ("st", "A", "own", "a1", 1), ("st", "M", "own", "a2", 0)]
+    other = [("st", "A", "own", "p:A", 1), ("st", "A", "own", "a1", 1), ("st", "M", "own", "a2", 0),
+             # A's genuine token presented with A's key from a near-identical address
+             *[("st", x, "A", f"p:{x}", 0) for x in NEAR_A],
+             # an adversary with a perfectly good token stores a forgery of a value S may have verified before
+             ("st", "M", "own", "forge1", 0)]
     if name == "full":
         al = token_events + time_events + token_stores + value_stores + other
+    elif name == "forgery":
+        # dedicated short family: genuine signed values, then forgeries with the same / other (signer, version)
+        al = [("st", "A", "own", "a1", 0), ("st", "A", "own", "a2", 0), ("st", "M", "own", "a2", 0),
+              ("st", "M", "own", "forge1", 0), ("st", "M", "own", "forge2", 0), ("st", "A", "own", "forge2", 0),
+              ("st", "M", "own", "broken", 0), ("st", "M", "own", "claim", 0), ("vm",)]
     elif name == "lifetimes":
         # writers with good tokens only: versions, lifetimes, maintenance, rotation
         al = token_events[:2] + time_events + [("st", "M", "own", "p:M", 0), ("st", "A", "own", "p:A", 0),
@@ -660,13 +696,16 @@ def community_alphabet(name: str) -> list:
 # part 3: the reader against an honest and a malicious responder
 # =====================================================================================================================
 
-READER_VALUES = ("plain", "a0", "a1", "a2", "a2'", "m1", "broken", "claim", "junk")
+READER_VALUES = ("plain", "a0", "a1", "a2", "a2'", "m1", "broken", "claim", "junk", "forge1")
 
 
-def reader_case(seed: int, honest: tuple, malicious: tuple) -> tuple[list, tuple]:
+def reader_case(seed: int, honest: tuple, malicious: tuple, before: tuple = ()) -> tuple[list, tuple]:
     """
     H (honest) and X (malicious) both hold values under the key; X's storage is filled directly, i.e. X answers with
     whatever it likes.  R knows both and performs find_values.  Returns (violations, observation).
+
+    With ``before`` the same reader first performs a lookup while H holds ``before`` (and X nothing); then both
+    responders' contents are replaced by ``honest`` / ``malicious`` and R looks the key up again.
     """
     net = simnet.World(("c15r", seed))
     try:
@@ -700,35 +739,48 @@ def reader_case(seed: int, honest: tuple, malicious: tuple) -> tuple[list, tuple
                 return signed(x, b"A-v3", 3, claim=pk_a)
             if v == "junk":
                 return b"\x02junk"
+            if v in ("forge1", "forge2"):
+                return forged_signed(x, b"FORGED-v" + v[-1:].encode(), int(v[-1]), pk_a)
             raise ValueError(v)
 
-        for name, vals in (("H", honest), ("X", malicious)):
-            st = ov[name].get_storage(ov[name].my_peer)
-            for i, v in enumerate(reversed(vals)):
-                st.put(key, value(v), id_=b"slot-%d" % i)       # served in the listed order
         r = ov["R"]
-        n0 = len(net.wire_log)
-        try:
-            report = net.drive(nodes["R"].run(r.find_values, key))
-        except Exception as e:  # noqa: BLE001
-            return [(f"reader:exception:{type(e).__name__}", f"find_values raised {e!r} for honest={honest} "
-                                                             f"malicious={malicious}")], ("exception",)
-        seen = []
-        for dg in net.wire_log[n0:]:
-            if tuple(dg.dst) == tuple(nodes["R"].address) and dg.data[22] == FindResponsePayload.msg_id:
-                auth, _ = r.serializer.unpack_serializable(BinMemberAuthenticationPayload, dg.data, offset=23)
-                ok, remainder = r._verify_signature(auth, dg.data)
-                if ok:
-                    (payload,) = r.serializer.unpack_serializable_list([FindResponsePayload], remainder, offset=23)
-                    seen += list(payload.values)
         who = {pk_a: "A", x.my_peer.public_key.key_to_bin(): "X"}
-        shown = [(d, who.get(p, p and p[-4:].hex())) for d, p in report]
-        viol = [(f"reader:{cls}", f"honest responder holds {list(honest)}, malicious responder answers "
-                                  f"{list(malicious)}; find_values -> {shown}: {text}")
-                for cls, text in ref.check_report(report, seen)]
-        if (honest or malicious) and not seen:
-            viol.append(("harness:reader-saw-nothing", f"{honest} {malicious}"))
-        return viol, tuple(sorted(shown, key=repr))
+
+        def lookup(h_vals: tuple, x_vals: tuple, label: str) -> tuple[list, tuple]:
+            for name, vals in (("H", h_vals), ("X", x_vals)):
+                st = ov[name].get_storage(ov[name].my_peer)
+                st.items.pop(key, None)
+                for i, v in enumerate(reversed(vals)):
+                    st.put(key, value(v), id_=b"slot-%d" % i)       # served in the listed order
+            n0 = len(net.wire_log)
+            case = f"{label}honest responder holds {list(h_vals)}, malicious responder answers {list(x_vals)}"
+            try:
+                report = net.drive(nodes["R"].run(r.find_values, key))
+            except Exception as e:  # noqa: BLE001
+                return [(f"reader:exception:{type(e).__name__}", f"{case}: find_values raised {e!r}")], ("exception",)
+            seen = []
+            for dg in net.wire_log[n0:]:
+                if tuple(dg.dst) == tuple(nodes["R"].address) and dg.data[22] == FindResponsePayload.msg_id:
+                    auth, _ = r.serializer.unpack_serializable(BinMemberAuthenticationPayload, dg.data, offset=23)
+                    ok, remainder = r._verify_signature(auth, dg.data)
+                    if ok:
+                        (payload,) = r.serializer.unpack_serializable_list([FindResponsePayload], remainder, offset=23)
+                        seen += list(payload.values)
+            shown = [(d, who.get(p, p and p[-4:].hex())) for d, p in report]
+            viol = [(f"reader:{cls}", f"{case}; find_values -> {shown}: {text}")
+                    for cls, text in ref.check_report(report, seen)]
+            if (h_vals or x_vals) and not seen:
+                viol.append(("harness:reader-saw-nothing", case))
+            return viol, tuple(sorted(shown, key=repr))
+
+        viol0: list = []
+        obs0: tuple = ()
+        label = ""
+        if before:
+            viol0, obs0 = lookup(tuple(before), (), "first lookup: ")
+            label = f"second lookup by the same reader (the first one saw {list(before)}): "
+        viol, obs = lookup(honest, malicious, label)
+        return viol0 + viol, (obs0, obs) if before else obs
     finally:
         net.close()
 
@@ -738,9 +790,10 @@ _READER_SEED = 0
 
 def reader_chunk(chunk: list) -> list:
     out = []
-    for honest, malicious in chunk:
-        v, obs = reader_case(_READER_SEED, tuple(honest), tuple(malicious))
-        out.append((honest, malicious, v, obs))
+    for case in chunk:
+        honest, malicious, before = (*case, ())[:3]
+        v, obs = reader_case(_READER_SEED, tuple(honest), tuple(malicious), tuple(before))
+        out.append((tuple(honest), tuple(malicious), tuple(before), v, obs))
     return out
 
 
@@ -749,7 +802,13 @@ def reader_cases(max_h: int, max_x: int) -> list:
     hs = [c for n in range(max_h + 1) for c in itertools.permutations(honest_alpha, n)
           if len({v[0] for v in c if v[0] == "a"}) == len([v for v in c if v[0] == "a"])]   # one value per signer
     xs = [c for n in range(max_x + 1) for c in itertools.permutations(READER_VALUES, n)]
-    return [(h, x) for h in hs for x in xs]
+    cases = [(h, x, ()) for h in hs for x in xs]
+    # reader with a history: it has seen a genuine value, then a malicious responder answers (forgeries naming the same
+    # signer with the same / another version among them)
+    second = ("forge1", "forge2", "a1", "plain", "broken")
+    xs2 = [c for n in range(1, 3) for c in itertools.permutations(second, n)]
+    cases += [((), x, (g,)) for g in ("a1", "a2") for x in xs2]
+    return cases
 
 
 # =====================================================================================================================
@@ -768,11 +827,13 @@ def store_peer_case(seed: int, x: str, token_choice: str, target_choice: str, ro
         net.flush()
         s_ov, s_ep, s_addr = ov["S"], nodes["S"].endpoint, nodes["S"].address
         who = {"A": (ov["A"], nodes["A"].address), "M": (ov["M"], nodes["M"].address),
-               "AM": (ov["A"], nodes["M"].address)}
+               "AM": (ov["A"], nodes["M"].address),
+               **{n: (ov["A"], near_address(nodes["A"].address, n)) for n in NEAR_A}}
         tokens = ref.RefTokens()
         held: dict[str, bytes] = {}
         ident = 9000
-        for y, (o, src) in who.items():
+        for y in IDENTITIES:
+            o, src = who[y]
             ident += 1
             n0 = len(net.wire_log)
             net.inject(src, s_addr, o.ezr_pack(FindRequestPayload.msg_id,
@@ -784,7 +845,7 @@ def store_peer_case(seed: int, x: str, token_choice: str, target_choice: str, ro
                     if struct.unpack_from(">I", dg.data, off)[0] == ident:
                         held[y] = dg.data[off + 4:off + 24]
                         tokens.issue(held[y], tuple(src), o.my_peer.public_key.key_to_bin(), now())
-        if len(held) != len(who):
+        if len(held) != len(IDENTITIES):
             return [("harness:no-token", f"store-peer world: tokens only for {sorted(held)}")], ()
         for _ in range(rotations):
             net.run_for(ROTATE_S)        # token_maintenance runs every 300 s
@@ -805,7 +866,7 @@ def store_peer_case(seed: int, x: str, token_choice: str, target_choice: str, ro
                                            StorePeerRequestPayload(ident, token, target)))
         net.flush()
         after = listing()
-        case = f"store-peer-request from {x} at {src[0]} with token '{token_choice}' ({why}) after {rotations} " \
+        case = f"store-peer-request from {x} at {src[0]}:{src[1]} with token '{token_choice}' ({why}) after {rotations} " \
                f"rotation(s), target = {'its own mid' if target_choice == 'own' else 'the mid of another peer'}"
         viol = []
         if after != before:
@@ -831,7 +892,8 @@ def store_peer_chunk(chunk: list) -> list:
 
 def store_peer_cases() -> list:
     return [(x, c, t, r) for x in IDENTITIES for c in ("own", *[y for y in IDENTITIES if y != x], "rnd")
-            for t in ("own", "other") for r in (0, 1, 2)]
+            for t in ("own", "other") for r in (0, 1, 2)] + \
+           [(x, "A", t, r) for x in NEAR_A for t in ("own", "other") for r in (0, 1, 2)]
 
 
 # =====================================================================================================================
@@ -850,9 +912,9 @@ def storage_configs(ctx: core.Ctx) -> list:
 def community_configs(ctx: core.Ctx) -> list:
     if ctx.thorough:
         return [(CommunityModel("full", ctx.seed), 4), (CommunityModel("lifetimes", ctx.seed), 5),
-                (CommunityModel("expiry", ctx.seed), 7)]    # depth 8 would reach S's rate limiter (10 queries / 5 s)
+                (CommunityModel("expiry", ctx.seed), 7), (CommunityModel("forgery", ctx.seed), 5)]    # depth 8 would reach S's rate limiter (10 queries / 5 s)
     return [(CommunityModel("full", ctx.seed), 3), (CommunityModel("lifetimes", ctx.seed), 4),
-            (CommunityModel("expiry", ctx.seed), 5)]
+            (CommunityModel("expiry", ctx.seed), 5), (CommunityModel("forgery", ctx.seed), 3)]
 
 
 def run(ctx: core.Ctx) -> core.Report:
@@ -884,14 +946,16 @@ def run(ctx: core.Ctx) -> core.Report:
     res = core.pmap(reader_chunk, cases, ctx.jobs, chunk=8)
     reader_obs = set()
     seen_keys = set()
-    for honest, malicious, viol, obs in sorted(res, key=lambda r: (len(r[0]) + len(r[1]), repr(r[:2]))):
+    for honest, malicious, before, viol, obs in sorted(res, key=lambda r: (len(r[0]) + len(r[1]) + len(r[2]),
+                                                                          repr(r[:3]))):
         reader_obs.add(obs)
         for key, what in viol:
             if key not in seen_keys:
                 seen_keys.add(key)
-                violations.append(core.Violation(key, what, {"part": "reader", "seed": ctx.seed,
+                violations.append(core.Violation(key, what, {"part": "reader", "seed": ctx.seed, "before": list(before),
                                                              "honest": list(honest), "malicious": list(malicious)}))
-    samples.append({"reader_case": {"honest": list(cases[-1][0]), "malicious": list(cases[-1][1])}})
+    samples.append({"reader_case": {"before": list(cases[-1][2]), "honest": list(cases[-1][0]),
+                                    "malicious": list(cases[-1][1])}})
 
     # part 4
     sp_cases = store_peer_cases()
@@ -938,7 +1002,8 @@ ASSUMPTIONS = [
 def replay(ctx: core.Ctx, data: dict) -> list:
     part = data.get("part")
     if part == "reader":
-        v, _ = reader_case(data["seed"], tuple(data["honest"]), tuple(data["malicious"]))
+        v, _ = reader_case(data["seed"], tuple(data["honest"]), tuple(data["malicious"]),
+                           tuple(data.get("before", ())))
         return [core.Violation(k, what) for k, what in v]
     if part == "store-peer":
         v, _ = store_peer_case(data["seed"], *data["case"])
